@@ -186,6 +186,12 @@ package didstore
 //@   call (binary.bigEndian).PutUint32 #1 requires [count-arithmetic] arg(2) == (did(call (binary.bigEndian).Uint32 #1) ? ret(call (binary.bigEndian).Uint32 #1) : uint32(0))
 //@           + ((len(metadata.SourceTransactions) > 1 && !((did(call (go-stoabs.Writer).Get #2) && len(ret(call (go-stoabs.Writer).Get #2).0) > 0) || (did(call (go-stoabs.Writer).Get #3) && len(ret(call (go-stoabs.Writer).Get #3).0) > 0))) ? uint32(1) : uint32(0))
 //@           - ((len(metadata.SourceTransactions) <= 1 && ((did(call (go-stoabs.Writer).Get #2) && len(ret(call (go-stoabs.Writer).Get #2).0) > 0) || (did(call (go-stoabs.Writer).Get #3) && len(ret(call (go-stoabs.Writer).Get #3).0) > 0))) ? uint32(1) : uint32(0))
+// The other statistics are functions of the RESULT of the replay, not of how it was reached (arrival order):
+// the document count grows exactly when the resulting latest version is the first version of the DID, and the
+// in-memory list of conflicted documents is refreshed with the resulting document on every successful path
+// (a DID that stays conflicted still changes its document).
+//@   ensures [document-count-grows-iff-the-result-is-a-first-version] isNilIface(result) ==> (did(call incrementDocumentCount #1) <==> metadata.Version == 0)
+//@   ensures [conflict-list-follows-the-result] isNilIface(result) ==> (len(metadata.SourceTransactions) > 1 ? did(call (*store).addCachedConflict #1) && arg(call (*store).addCachedConflict #1, 0) == tl : did(call (*store).removeCachedConflict #1) && arg(call (*store).removeCachedConflict #1, 0) == tl)
 
 // ---- C10: a deactivated DID never resolves as active again ----
 // Resolution walks from the latest version to older ones and returns the first that matches. It must
